@@ -50,8 +50,10 @@ def run(ctx):
             ok = outcome == model
             if ok and outcome == 'value':
                 o = seen['options']
-                ok = (o['method'] == want_method[m] and o['rel_step'] is step and o['args'] == extra and o['kwargs'] == kw and
-                      o['bounds'] is bounds and o['sparsity'] is None and np.array_equal(seen['x0'], x))
+                # an option that is not passed means scipy's default (method '3-point', rel_step None, no args / kwargs, no bounds / sparsity)
+                ok = (o.get('method', '3-point') == want_method[m] and o.get('rel_step') is step and tuple(o.get('args', ())) == extra and
+                      (o.get('kwargs') or {}) == kw and o.get('bounds', (-np.inf, np.inf)) is bounds and o.get('sparsity') is None and
+                      np.array_equal(seen['x0'], x))
             if ok:
                 eng['exact'] += 1
             else:
